@@ -362,10 +362,16 @@ fn gen_sync(case: usize, mut r: Rng, w: &mut dyn Write, merge: bool) {
             // the request in flight has the sequence number the monitor-independent model resolves: use a
             // wildcard by injecting all 16 sequence numbers is too noisy; the master's first user request
             // after a quiet start uses a known sequence (0), after a start-up sequence it is unknown: try 16
-            for seq in 0..16u8 {
+            // in descending order the reply that matches is not followed by one that matches the NEXT request
+            // (ascending: a master that wrongly goes on is stopped by the following forged reply)
+            let descending = g.r.chance(1, 2);
+            for k in 0..16u8 {
+                let seq = if descending { 15 - k } else { k };
                 let f = match shape {
                     0 => format!("{:02x}810000340207010500", 0xC0 | seq),             // g52v2 where none / another is expected
-                    1 => format!("{:02x}8100003402070205000600", 0xC0 | seq),         // count 2
+                    // count 2; the first delay is sometimes 0 so that it never exceeds the round trip (S120: a master
+                    // that takes the first of several delays goes on to the WRITE and reports success)
+                    1 => format!("{:02x}81000034020702{}000600", 0xC0 | seq, if seq % 2 == 0 { "00" } else { "05" }),
                     2 => format!("{:02x}810000340107010500", 0xC0 | seq),             // g52v1
                     3 => format!("{:02x}8100000102000001", 0xC0 | seq),               // measurement data
                     _ => format!("{:02x}8100003402080100050000", 0xC0 | seq),         // 16-bit count... and trailing octet
